@@ -332,6 +332,12 @@ func (p *printer) valLines(t *spec.Type, v *spec.Val) []string {
 		parts := make([]string, len(v.Enum))
 		for i, e := range v.Enum {
 			parts[i] = Leaf(e)
+			switch kind {
+			case spec.Int64:
+				parts[i] = "int64(" + parts[i] + ")"
+			case spec.UInt64:
+				parts[i] = "uint64(" + parts[i] + ")"
+			}
 		}
 		ls = append(ls, "Enum("+strings.Join(parts, ", ")+")")
 	}
@@ -543,6 +549,9 @@ func (p *printer) security(reqs []*spec.Requirement, nosec bool) {
 }
 
 func loc(l spec.Loc) string {
+	if l.Attr == "" {
+		return q(l.Wire) // non-object payload mapped to a single element
+	}
 	if l.Wire != "" && l.Wire != l.Attr {
 		return q(l.Attr + ":" + l.Wire)
 	}
